@@ -103,6 +103,23 @@ static int gen_cells(int type, int rows, int cols, int f,
     }
     double complex s[MAXCELL];
     gen_s(rows, f, s);
+    if (g_variant == 3 && rows == cols && rows >= 3) {
+	/* the same network with the leading 2 x 2 block of its Z matrix
+	   made exactly singular (second row of the block twice the first)
+	   while the matrix stays regular: the second diagonal entry cancels
+	   during any elimination and a later row has to be brought up */
+	double complex zm[MAXCELL];
+	if (ports_convert(rows, PT_S, s, PT_Z, zm, z0) != PORTS_OK)
+	    return -1;
+	zm[1 * rows + 0] = 2.0 * zm[0 * rows + 0];
+	zm[1 * rows + 1] = 2.0 * zm[0 * rows + 1];
+	if (type == VPT_Z) {
+	    memcpy(cells, zm, sizeof(double complex) * (size_t)(rows * rows));
+	    return 0;
+	}
+	return ports_convert(rows, PT_Z, zm, type - 1, cells, z0) ==
+	    PORTS_OK ? 0 : -1;
+    }
     if (type == VPT_S) {
 	memcpy(cells, s, sizeof(double complex) * (size_t)(rows * rows));
 	return 0;
@@ -602,6 +619,7 @@ static void run_a(long idx, vf_result *r)
 	    "%s%s", vdm_type_name[from], rows, cols, nf, zname[zmode],
 	    vdm_type_name[to], omode == 2 && g_variant ?
 	    "into a used ZIN 1x4x4 object" : oname[omode],
+	    g_variant == 3 ? " [singular leading block]" :
 	    g_variant ? " [second network]" : "");
     vf_desc(r, "%s", what);
     vf_errlog_reset(&L);
@@ -907,14 +925,18 @@ done:
 
 static long count(int tier)
 {
-    /* + the chains once more on a series element (singular Y) */
-    return (NPARTA + NPARTB) * (tier ? 2 : 1) + NPARTB;
+    /* + the chains once more on a series element (singular Y), + part A
+       once more on a network whose Z matrix has a singular leading block */
+    return (NPARTA + NPARTB) * (tier ? 2 : 1) + NPARTB + NPARTA;
 }
 
 static void run(int tier, long idx, vf_result *r)
 {
     g_variant = 0;
-    if (idx >= (NPARTA + NPARTB) * (tier ? 2 : 1)) {
+    if (idx >= (NPARTA + NPARTB) * (tier ? 2 : 1) + NPARTB) {
+	g_variant = 3;
+	idx -= (NPARTA + NPARTB) * (tier ? 2 : 1) + NPARTB;
+    } else if (idx >= (NPARTA + NPARTB) * (tier ? 2 : 1)) {
 	g_variant = 2;
 	idx = idx - (NPARTA + NPARTB) * (tier ? 2 : 1) + NPARTA;
     } else if (tier) {
